@@ -30,8 +30,8 @@ static std::string blanks(Rng& rng) {
     return b[rng.below(6)];
 }
 static std::string comment(Rng& rng) {
-    static const char* c[] = {"-- plain comment", "--", "-- it's a / comment", "--'unbalanced", "-- 1* 2*3 / /", "-- \"dq\" 'sq' / --", "---- dashes", "-- INCLUDE 'x' /", "-- PORO"};
-    return c[rng.below(9)];
+    static const char* c[] = {"-- plain comment", "--", "-- it's a / comment", "--'unbalanced", "-- 1* 2*3 / /", "-- \"dq\" 'sq' / --", "---- dashes", "-- INCLUDE 'x' /", "-- PORO", "-- 3.5\" tubing", "--\""};
+    return c[rng.below(11)];
 }
 static std::string afterSlashText(Rng& rng) {
     static const char* c[] = {" trailing text", " 42 * here", " end of record 1* 2*3", " PORO", "\tx", " -- c", " text -- and comment"};
